@@ -250,6 +250,7 @@ macro_rules! median_fk {
 median_fk!(Q);
 median_fk!(f64);
 median_fk!(Fz);
+median_fk!(Bl);
 
 macro_rules! mean_fk {
     ($t:ty) => {
@@ -865,6 +866,7 @@ fn build_inner(kind: &str, kv: &KV, wrap: Option<&str>) -> Box<dyn Inst> {
         ("min", "fz") => with_n!(kv_n(kv, "N"), N => finish(Min::<Fz, N>::default(), wrap)),
         ("bounds", "fz") => with_n!(kv_n(kv, "N"), N => finish(Bounds::<Fz, N>::default(), wrap)),
         ("delay", "fz") => with_n!(kv_n(kv, "N"), N => finish(Delay::<Fz, N>::default(), wrap)),
+        ("median", "bl") => with_n!(kv_n(kv, "N"), N => finish(Median::<Bl, N>::default(), wrap)),
         ("median", "fz") => with_n!(kv_n(kv, "N"), N => finish(Median::<Fz, N>::default(), wrap)),
         ("mean", "q") => with_n!(kv_n(kv, "N"), N => finish_q(Mean::<Q, N>::default(), wrap)),
         ("mean", "i64") => with_n!(kv_n(kv, "N"), N => finish(Mean::<i64, N>::default(), wrap)),
